@@ -195,7 +195,11 @@ def base_request(rule, method="GET"):
     return req
 
 
-def matrix(routes, rng, full):
+VCLASS = {"shell": "AssetAdministrationShell", "sm": "Submodel", "cd": "ConceptDescription", "elem": "SubmodelElement",
+          "qual": "Qualifier", "ref": "ModelReference", "ai": "AssetInformation"}
+
+
+def matrix(routes, rng, full, expects=None):
     """the route x method x malformed-input matrix of C11's quantifier, one variation at a time
     around an all-valid baseline (plus, in the full tier, pairs).  routes: [(rule, methods, endpoint)]"""
     import re
@@ -250,7 +254,21 @@ def matrix(routes, rng, full):
     for rule in ["/nothing", "/shells/<base64url:aas_id>/nothing", "/submodels/<base64url:submodel_id>/submodel-elements/<id_short_path:id_shorts>/nothing"]:
         for m in METHODS:
             out.append(dict(base_request(rule, m), cls="unknown-route"))
+    ep_of = {}
+    for (rule, ms, ep) in routes:
+        for m in ms:
+            ep_of[(rule, m)] = ep
     for r in out:
         if r["rule"].endswith("submodel-refs") and r["method"] in ("GET", "HEAD"):
             r["sorted"] = True
+            if any(k in ("limit", "cursor") for k, _ in r["query"]):
+                r["oracle_only"] = "reference sets are listed in hash order"
+        b = r["body"]
+        want = (expects or {}).get(ep_of.get((r["rule"], r["method"])))
+        if want and b[0] == "val" and VCLASS[b[2]["k"]] != want:
+            r["must_reject"] = "wrong-class body"
+            if b[1] != "json":
+                r["oracle_only"] = "the XML reader ignores the root tag"
+        if want and b[0] == "raw" and b[3] == "bad":
+            r["must_reject"] = "malformed body"
     return out
